@@ -119,9 +119,8 @@ class SoapMessage(ConcreteMessage):
             return result
 
         result = result.body
-        if not hasattr(
-            result, "__len__"
-        ):  # Return body directly if len is allowed (could indicated valid primitive type).
+        if not isinstance(result, xsd.CompoundValue):
+            # A simple typed body (str, bytes, list, int, ...) is returned as is
             return result
         if result is None or len(result) == 0:
             return None
